@@ -4,6 +4,7 @@ CONSTANTS
   Mutators <- MCMutators
   Children <- MCChildren
   Readers <- MCReaders
+  Registrars <- MCRegistrars
   Processors <- MCProcessors
   Shared <- MCShared
   ExecTracer = @EXECTRACER@
